@@ -334,6 +334,23 @@ pub struct Plan {
     /// bit flips applied to the surviving bytes before recovery: (byte index, bit 0..7)
     pub flips: Vec<(usize, u8)>,
     pub reads: Vec<ReadPlan>,
+    /// phase B: the same record through the simulator's second format (`pack.rs`)
+    #[serde(default)]
+    pub pack: PackPlan,
+}
+
+/// Decisions of the stubs in phase B (binary, self-describing, non-human-readable format).
+#[derive(Clone, Debug, Default, PartialEq, Eq, Serialize, Deserialize)]
+pub struct PackPlan {
+    pub write_sched: Vec<WDec>,
+    pub flush_sched: Vec<FlushDec>,
+    pub read_sched: Vec<RDec>,
+}
+
+impl PackPlan {
+    pub fn is_empty(&self) -> bool {
+        self.write_sched.is_empty() && self.flush_sched.is_empty() && self.read_sched.is_empty()
+    }
 }
 
 impl Plan {
@@ -346,6 +363,7 @@ impl Plan {
             flush_sched: vec![],
             flips: vec![],
             reads: vec![],
+            pack: PackPlan::default(),
         }
     }
 }
